@@ -79,7 +79,7 @@ def step (s : S) (t : List String) : S × String :=
   | "kf" :: "fallthrough-block-shrink" :: _ =>
     (s, if fallShrinkObserved.allowed then "allowed" else "crash:vm-panic")
   | "kf" :: "defer-panic-recursion-memory" :: _ =>
-    (s, if deferPanicRecursionObserved.allowed then "allowed" else "crash:mem-growth")
+    (s, if deferPanicRecursionObserved.allowed then "allowed" else "crash:resource")
   | "kf" :: _ => (s, "allowed")
   | _ => (s, "err:badop")
 
